@@ -96,6 +96,8 @@ where
     /// # }
     /// ```
     pub async fn read_index(&mut self) -> io::Result<Index> {
-        read_index(&mut self.inner).await
+        read_index(&mut self.inner)
+            .await
+            .map_err(|e| io::Error::new(io::ErrorKind::InvalidData, e))
     }
 }
